@@ -216,6 +216,21 @@ static int qlen(void)
 	return n;
 }
 
+/* the commands waiting in the TRXC queue (head = the one on the wire), one "Q <hex>" line each */
+static void queue_lines(void)
+{
+	struct trx_ctrl_msg *tcm;
+	if (!trx)
+		return;
+	llist_for_each_entry(tcm, &trx->trx_ctrl_list, list) {
+		const char *c;
+		printf("Q ");
+		for (c = tcm->cmd; *c; c++)
+			printf("%02x", (uint8_t)*c);
+		printf("\n");
+	}
+}
+
 static void state_line(void)
 {
 	if (trx)
@@ -376,6 +391,8 @@ int main(void)
 			after_call();
 			printf("RC %d\n", rc);
 			state_line();
+		} else if (!strcmp(line, "queue")) {
+			queue_lines();
 		} else if (!strncmp(line, "inst ", 5)) {
 			cur = atoi(line + 5) & 1;
 			if (!trx) do_open();
